@@ -470,6 +470,12 @@ class Ledger:
                     a0 = strip_sites(t[2][0]) if t[2] else None
                     w = (a0 == ('param', 1) and recv_wrapped) or (a0 is not None and (m_call(a0, name='wrap_envelope', self_suffix='Envelope') is not None))
                     reasons.extend(self.may_fail(cb, w, depth + 1, stack + (b.path,)))
+            elif b.local_ty(0).startswith('core::result::Result') and not (t[0] == 'agg' and t[2] == 'Ok'):
+                # anything else handed out as the Result (an indirect call through a function value, a merged value, a parameter):
+                # its Err-ness is not enumerated here, so the function may fail
+                alts = phi_alts(strip_sites(t))
+                if not all(a[0] == 'agg' and a[2] == 'Ok' for a in alts):
+                    reasons.append('unclassified Result exit %s' % fmt(t)[:60])
         return reasons
 
     def d_initsome_lock(self, s):
@@ -887,6 +893,7 @@ DEP_REVIEWED = {
     'map::Map::insert': 'key.to_cbor_data(): as CBOR::to_cbor_data',
     'tags::LazyTagsStore::get': 'Mutex lock unwrap / store initialised inside call_once (C20.4)',
     'tags::tags_for_values': 'unwrap_or_else, not unwrap: falls back to an unnamed tag',
+    'tags_store::TagsStore as core::default::Default>::default': 'TagsStore::new over an empty array: the insert loop (whose name unwrap / conflict panic needs a tag) runs zero times',
 }
 
 
